@@ -647,40 +647,25 @@ func ruleSeekRedirect(c *Ctx, r *Rep, tier string) {
 		unresolved("bgzf.(*Reader).Seek: cacheSwap call / final in-block seek not found")
 	}
 	r.Instance(rule, 1)
-	isSend := func(ins ssa.Instruction) bool {
-		if s, ok := ins.(*ssa.Send); ok {
-			f, _ := loadedField(s.Chan)
-			return f != nil && f.Name() == "control"
-		}
-		return false
-	}
+	isSend := func(ins ssa.Instruction) bool { return sendsOnControl(ins, 0) }
 	why := ""
 	for _, b := range fn.Blocks {
 		iff := ifOf(b)
 		if iff == nil || iff.Cond != ssa.Value(swap) {
 			continue
 		}
-		// the true edge: the cache supplied the block
-		syncOnly := func(from, to *ssa.BasicBlock) bool {
-			// an edge that establishes the synchronous mode (bg.dec != nil / bg.control == nil) ends the obligation
-			ce, ok := classifyErrIf(from, func(v ssa.Value) bool {
-				f, _ := loadedField(v)
-				return f != nil && (f.Name() == "dec" || f.Name() == "control")
-			})
-			if !ok || !ce.isNil {
-				return true
-			}
-			f, _ := loadedField(ce.subj)
-			nilEdge := from.Succs[ce.yes]
-			if f.Name() == "control" && to == nilEdge {
+		_ = b
+	}
+	{
+		// from the cacheSwap call, along "the cache supplied the block" only (the
+		// result may be tested more than once: `if ok && … {…}; if !ok {…}`)
+		hitOnly := func(from, to *ssa.BasicBlock) bool {
+			if iff := ifOf(from); iff != nil && iff.Cond == ssa.Value(swap) && from.Succs[0] != from.Succs[1] && to == from.Succs[1] {
 				return false
 			}
-			if f.Name() == "dec" && to != nilEdge {
-				return false
-			}
-			return true
+			return syncOnlyEdge(from, to)
 		}
-		if _, reach := pathTo(Loc{b.Succs[0], -1}, is(final), isSend, syncOnly); reach {
+		if _, reach := pathTo(locOf(swap), is(final), isSend, hitOnly); reach {
 			why = "after a cache hit Seek goes on to position the new current block without telling the read-ahead worker (no send on control, no restriction to the synchronous mode): the worker keeps reading ahead of the old position"
 		}
 	}
@@ -741,6 +726,51 @@ func ruleSeekRedirect(c *Ctx, r *Rep, tier string) {
 	r.Check(why == "", rule, "bgzf.(*Reader).Seek#cache-hit-redirect-drain", c.Pos(swap.Pos()), "no redirect that leaves cap(working) stale results in front of a scan bounded by cap(working)", why)
 }
 
+// syncOnlyEdge: false for an edge that establishes the synchronous mode
+// (bg.dec != nil / bg.control == nil): the redirect obligation ends there.
+func syncOnlyEdge(from, to *ssa.BasicBlock) bool {
+	ce, ok := classifyErrIf(from, func(v ssa.Value) bool {
+		f, _ := loadedField(v)
+		return f != nil && (f.Name() == "dec" || f.Name() == "control")
+	})
+	if !ok || !ce.isNil {
+		return true
+	}
+	f, _ := loadedField(ce.subj)
+	nilEdge := from.Succs[ce.yes]
+	if f.Name() == "control" && to == nilEdge {
+		return false
+	}
+	if f.Name() == "dec" && to != nilEdge {
+		return false
+	}
+	return true
+}
+
+// sendsOnControl: a send on the reader's control channel, directly or in a
+// package function the instruction calls (readAheadFrom).
+func sendsOnControl(ins ssa.Instruction, depth int) bool {
+	if s, ok := ins.(*ssa.Send); ok {
+		f, _ := loadedField(s.Chan)
+		return f != nil && f.Name() == "control"
+	}
+	call, ok := ins.(*ssa.Call)
+	if !ok || depth > 2 {
+		return false
+	}
+	g := staticCallee(&call.Call)
+	if g == nil || len(g.Blocks) == 0 || g.Pkg == nil || !strings.HasSuffix(g.Pkg.Pkg.Path(), "/bgzf") {
+		return false
+	}
+	found := false
+	allInstrs(g, func(x ssa.Instruction) {
+		if !found && sendsOnControl(x, depth+1) {
+			found = true
+		}
+	})
+	return found
+}
+
 // rulePipeStall (PIPE-STALL): the read-ahead loop looks at the decompressor's
 // error before it derives the next offset from the block it may have failed to
 // read. A failed read leaves a block without header, NextBase() is -1, the
@@ -754,9 +784,96 @@ func rulePipeStall(c *Ctx, r *Rep, tier string) {
 	if !found {
 		why = "nextBlockAt / NextBase calls not found in the read-ahead loop"
 	} else if !tested {
-		why = "the next read-ahead offset is taken from dec.blk.NextBase() whether or not nextBlockAt failed: after a failure it is -1 and the worker waits on control, which nothing but Seek feeds, while the reader waits on working for a block nobody is reading"
+		// the other way to keep the pipeline alive: the consumer. nextBlock goes
+		// back to wait on working only after a result it has found stale (made for
+		// an earlier instruction: a generation carried by the decompressor differs
+		// from the reader's); for a result of the current instruction that is not
+		// the block it wants – the failed one that ends the chain included – it
+		// reads the wanted block itself and re-points the worker.
+		if w2 := consumerNeverWaitsOnFresh(c); w2 != "" {
+			why = "the next read-ahead offset is taken from dec.blk.NextBase() whether or not nextBlockAt failed: after a failure it is -1 and the worker waits on control, which nothing but Seek feeds, while the reader waits on working for a block nobody is reading (" + w2 + ")"
+		}
 	}
-	r.Check(why == "", rule, "bgzf.NewReader$read-ahead#error-before-next", c.Pos(worker.Pos()), "the loop tests the decompressor's error before deriving the next offset", why)
+	r.Check(why == "", rule, "bgzf.NewReader$read-ahead#error-before-next", c.Pos(worker.Pos()), "the loop tests the decompressor's error before deriving the next offset, or nextBlock waits again only after a stale result and otherwise reads the wanted block itself and re-points the worker", why)
+}
+
+// consumerNeverWaitsOnFresh: "" if, in nextBlock, every way from the receive on
+// working back to that receive passes the "stale" edge of a comparison of a
+// field of the received decompressor with a field of the reader, and every way
+// from the receive to a return that passes the "not the wanted block" edge
+// without being stale reads a member itself (nextBlockAt) and sends on control.
+func consumerNeverWaitsOnFresh(c *Ctx) string {
+	fn := c.Func("bgzf", "(*Reader).nextBlock")
+	var recv *ssa.UnOp
+	allInstrs(fn, func(ins ssa.Instruction) {
+		if u, ok := ins.(*ssa.UnOp); ok && u.Op == token.ARROW {
+			if f, _ := loadedField(u.X); f != nil && f.Name() == "working" {
+				recv = u
+			}
+		}
+	})
+	if recv == nil {
+		return "no receive on working in nextBlock"
+	}
+	// the stale test: dec.<field> != bg.<field>, dec the received value
+	staleEdge := func(from, to *ssa.BasicBlock) bool {
+		iff := ifOf(from)
+		if iff == nil || from.Succs[0] == from.Succs[1] {
+			return false
+		}
+		bo, ok := iff.Cond.(*ssa.BinOp)
+		if !ok || (bo.Op != token.NEQ && bo.Op != token.EQL) {
+			return false
+		}
+		ofDec := func(v ssa.Value) bool {
+			ld, ok := v.(*ssa.UnOp)
+			if !ok || ld.Op != token.MUL {
+				return false
+			}
+			fa, ok := ld.X.(*ssa.FieldAddr)
+			return ok && fa.X == ssa.Value(recv)
+		}
+		ofReader := func(v ssa.Value) bool {
+			ld, ok := v.(*ssa.UnOp)
+			if !ok || ld.Op != token.MUL {
+				return false
+			}
+			fa, ok := ld.X.(*ssa.FieldAddr)
+			return ok && origin(fa.X) == ssa.Value(fn.Params[0])
+		}
+		if !((ofDec(bo.X) && ofReader(bo.Y)) || (ofDec(bo.Y) && ofReader(bo.X))) {
+			return false
+		}
+		k := 0 // the edge on which they differ
+		if bo.Op == token.EQL {
+			k = 1
+		}
+		return to == from.Succs[k]
+	}
+	anyStale := false
+	for _, b := range fn.Blocks {
+		for _, s := range b.Succs {
+			if staleEdge(b, s) {
+				anyStale = true
+			}
+		}
+	}
+	if !anyStale {
+		return "nextBlock has no way to tell a stale result from one made for the current instruction"
+	}
+	// the stale predicate may be computed once and tested later (`stale := …`): edges
+	// on a boolean that is that comparison count as well
+	staleCond := map[ssa.Value]bool{}
+	allInstrs(fn, func(ins ssa.Instruction) {
+		if bo, ok := ins.(*ssa.BinOp); ok && (bo.Op == token.NEQ || bo.Op == token.EQL) {
+			staleCond[bo] = true
+		}
+	})
+	notStale := func(from, to *ssa.BasicBlock) bool { return !staleEdge(from, to) }
+	if _, again := pathTo(locOf(recv), func(x ssa.Instruction) bool { return x == ssa.Instruction(recv) }, nil, notStale); again {
+		return "nextBlock can go back to wait on working after a result that was not stale"
+	}
+	return ""
 }
 
 // workerTestsErr: the read-ahead literal of NewReader; whether a test of the
